@@ -28,14 +28,15 @@ func init() {
 			if tier == "thorough" {
 				n = 32
 			}
-			return []core.Part{{Name: "commands", Bin: "raceov", Batches: n, Parallel: 4, TimeoutS: 900, Env: []string{"VERIF_YIELD=1"}}}
+			return []core.Part{{Name: "commands", Bin: "raceov", Batches: n, Parallel: 4, TimeoutS: 900, Env: []string{"VERIF_YIELD=1"}},
+				{Name: "steady-traffic", Bin: "plain", Batches: 1, Parallel: 1, TimeoutS: 120}}
 		},
 		Assumptions: []string{
 			"unique tags make the history unambiguous: a caller's result is checked against the serial of the frame that carried its own tag, as logged by the terminal",
 			"time is used only in the sound direction: a timeout result is illegal only if the terminal wrote the matching response more than max(T/2, 400 ms) before call start + T; a missing result is a violation only after T + 3 s + 20 T with the latency probe quiet",
 			"0x1003 carries no serial and is outside the property's list of response types",
 		},
-	}, map[string]Worker{"commands": c12Worker})
+	}, map[string]Worker{"commands": c12Worker, "steady-traffic": c12Steady})
 }
 
 var c12Cmds = []struct {
